@@ -47,8 +47,12 @@ pub fn synth(sig: &t::Signature, response: bool, thorough: bool) -> Result<Vec<I
             None => {
                 if q(Quirk::ExcessiveWindowScaling) {
                     vec![Some(15)]
+                } else if thorough {
+                    // every legal shift
+                    (0..=14).map(Some).collect()
                 } else {
-                    vec![Some(0), Some(7)]
+                    // both ends of the legal range and two interior values
+                    vec![Some(0), Some(1), Some(7), Some(14)]
                 }
             }
         }
